@@ -540,6 +540,7 @@ func runC12(c *Ctx) {
 		okP := byHash && byNumber == ""
 		c.Check(fname(cf)+"#first-parent-by-hash", cf.Pos(), okP, ifelse(okP, "the first block is verified against the header looked up by its ParentHash", "the first block of a batch is verified against a header looked up by "+ifelse(byNumber != "", byNumber, "something other than its ParentHash")+": on a side chain that is the canonical header of the parent's number, not the parent — an honest side-chain header is rejected, and a header that is invalid on its own parent (a proposal with several approvals appearing in one block) is accepted"))
 	}
+	c12Builder(c, w)
 	vr := w.Fn("core", "HeaderChain", "VersionForRoundWithParents")
 	c.sawFunc(fname(vr))
 	back := constOf(w, "core", "protocolRoundBack")
@@ -561,6 +562,112 @@ func runC12(c *Ctx) {
 		}
 	}
 	c.Check(fname(vr)+"#version-in-force", vr.Pos(), usesBack && usesCurr, ifelse(usesBack && usesCurr, "reads CurrVersion of the header protocolRoundBack rounds back", "the version in force is no longer read from the header protocolRoundBack rounds back"))
+	// every answer is read from a header of the chain being looked at: each non-nil result derives from the
+	// version table indexed by the CurrVersion of a header (no memoised answer keyed by the round alone —
+	// the same round has different headers on different forks and in batches that are dropped later)
+	{
+		isCurrLoad := func(v ssa.Value) bool {
+			f, _ := loadedField(v)
+			return f != nil && f.Name() == "CurrVersion" && ownerOfField(hdr, f)
+		}
+		nRet, badRet := 0, ""
+		for _, b := range vr.Blocks {
+			r, ok := b.Instrs[len(b.Instrs)-1].(*ssa.Return)
+			if !ok || b == vr.Recover || len(r.Results) == 0 {
+				continue
+			}
+			if isNilConst(stripConv(r.Results[0])) {
+				continue
+			}
+			nRet++
+			c.sites++
+			fromHeader := derivesFrom(r.Results[0], func(v ssa.Value) bool {
+				lk, isLk := v.(*ssa.Lookup)
+				return isLk && derivesFrom(lk.Index, isCurrLoad)
+			})
+			if !fromHeader && badRet == "" {
+				badRet = w.Pos(r.Pos())
+			}
+		}
+		c.Check(fname(vr)+"#answers-from-a-header", vr.Pos(), nRet > 0 && badRet == "", ifelse(nRet > 0 && badRet == "", fmt.Sprintf("all %d answering returns derive from Versions[header.CurrVersion]", nRet), "the return at "+badRet+" answers with a version that is not read from a header's CurrVersion (a value remembered per round): headers of a batch that was verified and dropped, or of another fork, decide the version in force for the canonical chain"))
+	}
+}
+
+// c12Builder: the block builder derives the new header from the unmodified parent.
+func c12Builder(c *Ctx, w *World) {
+	cw := w.Fn("miner", "worker", "commitNewWork")
+	c.sawFunc(fname(cw))
+	pObj := w.FuncObj("core", "", "ProcessYouVersionState")
+	calls := callsTo(cw, pObj)
+	if len(calls) == 0 {
+		c.Undecided(fname(cw)+"#parent-unmodified", cw.Pos(), "commitNewWork no longer calls ProcessYouVersionState")
+		return
+	}
+	mutators := map[string]bool{"Add": true, "Sub": true, "Mul": true, "Div": true, "Mod": true, "Quo": true, "Rem": true, "DivMod": true, "QuoRem": true, "Set": true, "SetUint64": true, "SetInt64": true, "SetBytes": true, "SetBit": true, "SetBits": true, "SetString": true, "Neg": true, "Abs": true, "Lsh": true, "Rsh": true, "Exp": true, "And": true, "AndNot": true, "Or": true, "Xor": true, "Not": true, "Sqrt": true, "ModInverse": true, "ModSqrt": true, "GCD": true, "Rand": true, "Binomial": true, "MulRange": true}
+	for i, pc := range calls {
+		c.sites++
+		parentArg := stripConv(callArgs(pc)[0])
+		bad := ""
+		for _, b := range cw.Blocks {
+			for _, in := range b.Instrs {
+				fa, ok := in.(*ssa.FieldAddr)
+				if !ok || !samePath(fa.X, parentArg) && stripConv(fa.X) != parentArg {
+					continue
+				}
+				for _, r := range *fa.Referrers() {
+					switch x := r.(type) {
+					case *ssa.Store:
+						if x.Addr == ssa.Value(fa) && bad == "" {
+							bad = "field " + fieldOfAddr(fa).Name() + " of the parent header is assigned at " + w.Pos(x.Pos())
+						}
+					case *ssa.UnOp:
+						if x.Op != token.MUL || !isBigIntPtr(x.Type()) {
+							continue
+						}
+						// the loaded *big.Int (and values it is passed through) as receiver of a mutating method
+						seen := map[ssa.Value]bool{}
+						var walk func(v ssa.Value)
+						walk = func(v ssa.Value) {
+							if seen[v] || v.Referrers() == nil {
+								return
+							}
+							seen[v] = true
+							for _, rr := range *v.Referrers() {
+								switch y := rr.(type) {
+								case *ssa.Phi:
+									walk(y)
+								case *ssa.Store:
+									if al, isAl := y.Addr.(*ssa.Alloc); isAl && y.Val == v {
+										for _, r3 := range *al.Referrers() {
+											if ld, isLd := r3.(*ssa.UnOp); isLd && ld.Op == token.MUL {
+												walk(ld)
+											}
+										}
+									}
+								case *ssa.Call:
+									o := calleeObj(y)
+									if o == nil || o.Pkg() == nil || o.Pkg().Path() != "math/big" || recvName(o) != "Int" {
+										continue
+									}
+									if rv := callRecv(y); rv != nil && stripConv(rv) == v && mutators[o.Name()] {
+										if bad == "" {
+											bad = "the parent header's " + fieldOfAddr(fa).Name() + " is changed in place by (*big.Int)." + o.Name() + " at " + w.Pos(y.Pos())
+										}
+									}
+									// the result of a mutator aliases its receiver
+									if rv := callRecv(y); rv != nil && stripConv(rv) == v && isBigIntPtr(y.Type()) {
+										walk(y)
+									}
+								}
+							}
+						}
+						walk(x)
+					}
+				}
+			}
+		}
+		c.Check(fmt.Sprintf("%s#parent-header-unmodified-%d", fname(cw), i), pc.Pos(), bad == "", ifelse(bad == "", "the header handed to ProcessYouVersionState as parent is not written in commitNewWork", bad+": the builder derives the version fields from a parent that differs from the real one (e.g. a round number one too high), and the header it builds is rejected by the verifier or switches the version a round early"))
+	}
 }
 
 func negateCmp(op token.Token) token.Token {
